@@ -849,6 +849,11 @@ class Exec:
                 cx = c2.get("ctx") or {}
                 if cx.get("name") == cname and F.norm_path(cx.get("trait", "")) == trait_path and F.norm_ty(cx.get("self_ty", "")) == selfty and c2.get("val") is not None:
                     return self.const_operand(st, fr, {"ty": c2["ty"], "val": c2["val"], "item": c2["path"]})
+        if v is None and c.get("param") and fr.subst.get(c["param"]) is not None and ty in INT_BITS:
+            # a const generic parameter of an inlined generic helper: the instance's argument (`iterate::<9>`)
+            mcg = re.match(r"^\s*(-?\d+)(?:_?[iu](?:8|16|32|64|128|size))?\s*$", str(fr.subst[c["param"]]))
+            if mcg:
+                return mk_const(ty, from_signed(ty, int(mcg.group(1))))
         if v is None:
             raise Unsupported("unevaluated constant %s" % c.get("item"))
         k = v.get("k")
@@ -862,6 +867,11 @@ class Exec:
                 fp_ = {}
                 for e_ in v["fnptrs"]:
                     lb_ = self.facts.by_key.get(e_["key"]) if e_.get("local") else None
+                    if lb_ is None and F.norm_path(e_["def"]).endswith("FnOnce::call_once") and e_.get("args"):
+                        # the call_once shim of a non-capturing closure coerced to a fn pointer: the closure itself
+                        mk_ = re.search(r"\{closure@(KEY:[^}]+)\}", str(e_["args"][0]))
+                        if mk_:
+                            lb_ = self.facts.closure_at.get(mk_.group(1))
                     if lb_ is not None:
                         nm_ = lb_.ident()
                     else:
@@ -1713,6 +1723,26 @@ class Exec:
             pair = self.binop({"add": "AddWithOverflow", "sub": "SubWithOverflow", "mul": "MulWithOverflow"}[m.group(2)], ty, a, b)
             res, ovf = pair[2]
             return ("if", ovf, ("val", NONE), ("val", some(res)))
+        if re.search(r"Iterator>::find$|^core::iter::Iterator::find$", base) and len(args) == 2 and tag(args[0]) == "ref":
+            # `table.iter().find(|e| pred(e))` over a table of known length: the first element for which the predicate holds
+            it_ = self.load(st, args[0][1], args[0][2])
+            clo = self.deref_value(st, args[1])
+            cb = self.facts.by_key.get(clo[1][1]) if tag(clo) == "agg" and clo[1][0] == "closure" else None
+            if tag(it_) == "sliceiter" and cb is not None and it_[3] - it_[2] <= 16:
+                carr, lo_, hi_, rev = it_[1], it_[2], it_[3], it_[4]
+                sub = Exec(self.facts, self.policy, max_nodes=2000)
+                try:
+                    leaf = sub.run_body(cb)
+                except Unsupported:
+                    leaf = None
+                if leaf is not None and leaf[0] == "leaf" and not leaf[2]:
+                    tree = ("val", NONE)
+                    for i in (range(lo_, hi_) if rev else range(hi_ - 1, lo_ - 1, -1)):      # built from the last candidate backwards
+                        el = self.index(carr, mk_const("usize", i))
+                        cnd = _subst_closure(leaf[1], clo, el, mk("unit"))
+                        loc = st.alloc(); st.store[loc] = el
+                        tree = ("if", cnd, ("val", some(mk("ref", loc, ()))), tree)
+                    return tree
         if base == "<T as core::convert::TryFrom<U>>::try_from" and len(args) == 1 and len(r.get("args") or []) == 2:
             # the blanket impl through Into: infallible (`Ok(U::into(value))`); for integers Into is the lossless cast
             T, U = [canon_generic(a) for a in r["args"]]
@@ -1805,6 +1835,8 @@ class Exec:
                 lb = self.facts.get(nm)
                 if lb is not None:
                     fd_ = {"def": lb.path, "res": {"def": lb.path, "key": lb.key, "args": [], "local": True}}
+                    if lb.kind == "Closure" and len(args) + 1 == lb.mir["arg_count"]:
+                        args = [mk("agg", ("closure", lb.key), ())] + args      # a non-capturing closure coerced to a fn pointer
                 else:
                     base_, _, rest_ = nm.partition("<")
                     targs_ = []
